@@ -32,6 +32,11 @@ type c08Case struct {
 	Words   []uint32 `json:"words,omitempty"` // real RISC-V variant
 	Base    uint64   `json:"base,omitempty"`
 	Reverse bool     `json:"reverse,omitempty"`
+	// IPW: width in bytes of the instruction-pointer values of the synthetic
+	// instructions (0 = 8); RV32: the real words are lifted by the rv32 front end,
+	// whose instruction-pointer values are 4 bytes wide.
+	IPW  int  `json:"ipw,omitempty"`
+	RV32 bool `json:"rv32,omitempty"`
 }
 
 type c08Details struct{ s string }
@@ -39,30 +44,33 @@ type c08Details struct{ s string }
 func (d c08Details) Name() string   { return d.s }
 func (d c08Details) String() string { return d.s }
 
-func c8(a uint64) expr.Expr { return ir.ConstU(a, 8) }
-
-func (i c08Ins) build() parser.Instruction {
+func (i c08Ins) build(ipw int) parser.Instruction {
+	if ipw == 0 {
+		ipw = 8
+	}
+	W := expr.Width(ipw)
+	c8 := func(a uint64) expr.Expr { return ir.ConstU(a, W) }
 	next := i.Addr + uint64(i.Len)
 	var effs []expr.Effect
-	r1, r2 := expr.NewRegLoad("r1", 8), expr.NewRegLoad("r2", 8)
+	r1, r2 := expr.NewRegLoad("r1", W), expr.NewRegLoad("r2", W)
 	switch i.Kind {
 	case "plain":
-		effs = []expr.Effect{expr.NewRegStore(c8(1), "x1", 8)}
+		effs = []expr.Effect{expr.NewRegStore(c8(1), "x1", W)}
 	case "jmp":
-		effs = []expr.Effect{expr.NewRegStore(c8(i.T1), expr.IPKey, 8)}
+		effs = []expr.Effect{expr.NewRegStore(c8(i.T1), expr.IPKey, W)}
 	case "cond":
-		effs = []expr.Effect{expr.NewRegStore(expr.NewLess(r1, r2, c8(i.T1), c8(next), 8), expr.IPKey, 8)}
+		effs = []expr.Effect{expr.NewRegStore(expr.NewLess(r1, r2, c8(i.T1), c8(next), W), expr.IPKey, W)}
 	case "next":
-		effs = []expr.Effect{expr.NewRegStore(c8(next), expr.IPKey, 8)}
+		effs = []expr.Effect{expr.NewRegStore(c8(next), expr.IPKey, W)}
 	case "ind":
-		effs = []expr.Effect{expr.NewRegStore(expr.NewBinary(expr.Add, r1, c8(4), 8), expr.IPKey, 8)}
+		effs = []expr.Effect{expr.NewRegStore(expr.NewBinary(expr.Add, r1, c8(4), W), expr.IPKey, W)}
 	case "cond2":
-		effs = []expr.Effect{expr.NewRegStore(expr.NewLess(r1, r2, c8(i.T1), c8(i.T2), 8), expr.IPKey, 8)}
+		effs = []expr.Effect{expr.NewRegStore(expr.NewLess(r1, r2, c8(i.T1), c8(i.T2), W), expr.IPKey, W)}
 	case "two":
-		effs = []expr.Effect{expr.NewRegStore(r1, "x1", 8), expr.NewRegStore(expr.NewBinary(expr.Add, c8(i.T1-1), expr.One, 8), expr.IPKey, 8)}
+		effs = []expr.Effect{expr.NewRegStore(r1, "x1", W), expr.NewRegStore(expr.NewBinary(expr.Add, c8(i.T1-1), expr.One, W), expr.IPKey, W)}
 	case "condadd": // pc-relative form: IP := addr + (r1 < r2 ? T1-addr : len): the conditional sits below an addition
 		effs = []expr.Effect{expr.NewRegStore(expr.NewBinary(expr.Add, c8(i.Addr),
-			expr.NewLess(r1, r2, c8(i.T1-i.Addr), c8(uint64(i.Len)), 8), 8), expr.IPKey, 8)}
+			expr.NewLess(r1, r2, c8(i.T1-i.Addr), c8(uint64(i.Len)), W), W), expr.IPKey, W)}
 	}
 	return parser.Instruction{Addr: model.Addr(i.Addr), Bytes: make([]byte, i.Len), Effects: effs,
 		Details: c08Details{fmt.Sprintf("%s@%x", i.Kind, i.Addr)}}
@@ -170,7 +178,11 @@ func c08Check(c c08Case, pins []parser.Instruction, abs []c08Ins) *eng.Fail {
 func c08Run(c c08Case) *eng.Fail {
 	if c.Words != nil {
 		// real RISC-V pass: derive the abstract description from the reference decoder
-		pins, err := prog.Instructions([]prog.Seg{{Base: c.Base, Words: c.Words}})
+		front, ref := parser.Parser(prog.Parser64), prog.Ref64
+		if c.RV32 {
+			front, ref = prog.Parser32, prog.Ref32
+		}
+		pins, err := prog.InstructionsWith([]prog.Seg{{Base: c.Base, Words: c.Words}}, front)
 		if err != nil {
 			return nil
 		}
@@ -178,7 +190,7 @@ func c08Run(c c08Case) *eng.Fail {
 		for k, w := range c.Words {
 			a := c.Base + uint64(4*k)
 			ai := c08Ins{Addr: a, Len: 4, Kind: "plain"}
-			switch n := rvref.DecodeFast(w, prog.Ref64); rvref.Format(n) {
+			switch n := rvref.DecodeFast(w, ref); rvref.Format(n) {
 			case "B":
 				ai.Kind, ai.T1 = "cond", a+uint64(rvref.ImmB(w))
 			case "J":
@@ -199,14 +211,14 @@ func c08Run(c c08Case) *eng.Fail {
 	}
 	pins := make([]parser.Instruction, len(c.Ins))
 	for i, in := range c.Ins {
-		pins[i] = in.build()
+		pins[i] = in.build(c.IPW)
 	}
 	return c08Check(c, pins, c.Ins)
 }
 
 func init() {
 	checks["C08"] = eng.Check{
-		Rule:        "deps.NewCode on synthetic instruction sequences: <=3 (thorough 4) instructions of length 2 or 4 in 3 length patterns x every gap pattern, each instruction of one of 8 kinds (plain; IP:=addr+Less(r1,r2,T-addr,len) i.e. a conditional below an addition; IP:=const T; IP:=Less(r1,r2,T,next); IP:=next; IP:=register+4; IP:=Less(..,T1,T2); two effects with a foldable target) with T over {every instruction start, a mid-instruction address, a gap/end address, far outside}, entry over the same address alphabet, sorted and reversed input order, plus the empty sequence; and on real RISC-V sequences of <=4 words over {addi, beq +8/-4/+4, jal x0 +8/+4/-8, jalr, bne +12} (targets from the reference decoder). Oracle: failure iff entry or a constant real target is not an instruction start; otherwise blocks = maximal runs between leaders (first, after gap, after an instruction with a real target, each constant target, entry). Non-trivial = code that builds.",
+		Rule:        "deps.NewCode on synthetic instruction sequences: <=3 (thorough 4) instructions of length 2 or 4 in 3 length patterns x every gap pattern, each instruction of one of 8 kinds (plain; IP:=addr+Less(r1,r2,T-addr,len) i.e. a conditional below an addition; IP:=const T; IP:=Less(r1,r2,T,next); IP:=next; IP:=register+4; IP:=Less(..,T1,T2); two effects with a foldable target) with T over {every instruction start, a mid-instruction address, a gap/end address, far outside}, entry over the same address alphabet, sorted and reversed input order, with 8-byte and (quick: for <=2 instructions and a third of the longer sequences) 4-byte instruction-pointer values, plus the empty sequence; and on real RISC-V sequences of <=4 words over {addi, beq +8/-4/+4, jal x0 +8/+4/-8, jalr, bne +12} (targets from the reference decoder), lifted by the rv64 and by the rv32 front end. Oracle: failure iff entry or a constant real target is not an instruction start; otherwise blocks = maximal runs between leaders (first, after gap, after an instruction with a real target, each constant target, entry). Non-trivial = code that builds.",
 		Assumptions: []string{"a constant target equal to the instruction's own end is not a jump (as the property's 'real jump target' says)"},
 		Run: func(r *eng.Run) {
 			do := func(c c08Case) {
@@ -286,6 +298,7 @@ func init() {
 					kinds = append(kinds, ks)
 				}
 				idx := make([]int, j.n)
+				narrowN := 0
 				for {
 					ins := make([]c08Ins, j.n)
 					nonPlain := 0
@@ -303,6 +316,11 @@ func init() {
 								rev[j.n-1-k] = ins[k]
 							}
 							do(c08Case{Ins: rev, Entry: e})
+							// the same code with 4-byte instruction-pointer values (what a 32-bit front end
+							// produces); quick: sequences of <=2 instructions and every 3rd longer one
+							if narrowN++; j.n <= 2 || !r.Quick() || narrowN%3 == 0 {
+								do(c08Case{Ins: ins, Entry: e, IPW: 4})
+							}
 							if exp, _ := c08Expect(ins, e); exp != nil {
 								r.Nontrivial(1)
 							}
@@ -343,6 +361,7 @@ func init() {
 				for e := 0; e <= len(ws); e++ {
 					do(c08Case{Words: ws, Base: 0x1000, Entry: 0x1000 + uint64(4*e)})
 					do(c08Case{Words: ws, Base: 0x1000, Entry: 0x1000 + uint64(4*e), Reverse: true})
+					do(c08Case{Words: ws, Base: 0x1000, Entry: 0x1000 + uint64(4*e), RV32: true})
 				}
 			})
 			r.Sample(c08Case{Ins: []c08Ins{{Addr: 0x100, Len: 4, Kind: "cond", T1: 0x108}, {Addr: 0x104, Len: 4, Kind: "plain"}, {Addr: 0x108, Len: 4, Kind: "jmp", T1: 0x100}}, Entry: 0x104})
